@@ -103,6 +103,40 @@ NormTerm(m, xfull) ==
   CASE m \in CosType  -> [num |-> x, qn |-> Q, qd |-> n]
     [] m \in CorrType -> [num |-> [k \in 1..n |-> n * x[k] - S], qn |-> n * Q - S * S, qd |-> 1]
     [] m = "rho-a"    -> [num |-> Rank2(x), qn |-> 4, qd |-> 1]
+(* ---- the library has TWO pooling functions: rsatoolbox.util.inference_util.pool_rdm (noise ceilings; kind "nc")
+   and rsatoolbox.util.pooling.pool_rdm (fitters; kind "fit", takes sigma_k).  One definition, Pool = NanMean o
+   Normalise, covers both; they differ only in the normaliser of the whitened measures:
+     euclid, neg_riem_dist                 no normalisation (plain mean)
+     cosine                                root mean square
+     corr                                  z-score (the result is shifted by a constant afterwards: irrelevant)
+     spearman, rho-a, kendall, tau-b, tau-a  tie-averaged ranks, THEN the mean
+     cosine_cov, corr_cov   kind "nc":  as cosine / corr  (plain norm - NOT the optimum of the whitened measure)
+                            kind "fit": x / sqrt(x' V^-1 x) (corr_cov: x centred first), V = (C Sigma C')^{o2} restricted
+                                        to the present entries - the normalisation under which the mean maximises the
+                                        average whitened similarity.  The radicand is rational for integer data and
+                                        Sigma = I; it is emitted exactly for 3 conditions without missing entries
+                                        (V = [[4,1,1],[1,4,1],[1,1,4]], det 54) and left to the kernel otherwise
+                                        (qn = qd = 0 marks "V-norm, computed by the kernel").                        *)
+PlainMean == {"euclid", "neg_riem_dist"}
+RankType == {"spearman", "rho-a", "kendall", "tau-b", "tau-a"}
+PoolMethodsNc == PlainMean \cup {"cosine", "corr", "cosine_cov", "corr_cov"} \cup RankType
+PoolMethodsFit == PoolMethodsNc \ {"neg_riem_dist"}
+V3 == << <<4, 1, 1>>, <<1, 4, 1>>, <<1, 1, 4>> >>
+AdjV3 == << <<15, -3, -3>>, <<-3, 15, -3>>, <<-3, -3, 15>> >>      \* adj(V3); det(V3) = 54
+QuadAdjV3(u) == SumS([i \in 1..3 |-> u[i] * SumS([j \in 1..3 |-> AdjV3[i][j] * u[j]])])
+NormTermK(kind, m, xfull) ==
+  LET x == Compact(xfull)  n == Len(x)  S == SumS(x)  Q == DotS(x, x)
+      cen == [k \in 1..n |-> n * x[k] - S]
+      whit == kind = "fit" /\ m \in {"cosine_cov", "corr_cov"}
+      exactV == NC = 3 /\ n = 3 IN
+  CASE m \in PlainMean -> [num |-> x, qn |-> 1, qd |-> 1]
+    [] m \in RankType -> [num |-> Rank2(x), qn |-> 4, qd |-> 1]
+    [] m = "cosine" \/ (m = "cosine_cov" /\ ~whit) -> [num |-> x, qn |-> Q, qd |-> n]
+    [] m = "corr" \/ (m = "corr_cov" /\ ~whit) -> [num |-> cen, qn |-> n * Q - S * S, qd |-> 1]
+    [] m = "cosine_cov" /\ whit -> [num |-> x, qn |-> IF exactV THEN QuadAdjV3(x) ELSE 0, qd |-> IF exactV THEN 54 ELSE 0]
+    [] m = "corr_cov" /\ whit -> [num |-> cen, qn |-> IF exactV THEN QuadAdjV3(cen) ELSE 0, qd |-> IF exactV THEN 54 ELSE 0]
+PoolStatK(kind, m, rows) == [R |-> Len(rows), present |-> PresentSeq(rows[1]),
+                             terms |-> [r \in 1..Len(rows) |-> NormTermK(kind, m, rows[r])]]
 \* the pooled RDM: entry k (present entries) = (1/R) * sum_r terms[r].num[k] / sqrt(terms[r].qn / terms[r].qd)
 PoolStat(m, rows) == [R |-> Len(rows), present |-> PresentSeq(rows[1]),
                       terms |-> [r \in 1..Len(rows) |-> NormTerm(m, rows[r])]]
@@ -127,7 +161,7 @@ AtTest(p, F) == IF api = "boot" THEN p ELSE SubsamplePats(p, ByP, F.testIdx)
 UpperSrc(F) == IF api = "boot" THEN src ELSE SubsamplePats(src, ByP, F.testIdx)
 UpperOf(F) == [ob |-> PoolOb(UpperSrc(F)), deps |-> DepTokens(UpperSrc(F))]
 
-PoolAll == /\ pc = "start"
+PoolAll == /\ pc = "start" /\ api # "pool"
            /\ upper' = IF api = "boot" THEN [ob |-> PoolOb(src), deps |-> DepTokens(src)] ELSE NoPred
            /\ pc' = "loop"
            /\ UNCHANGED <<objs, hist, fc, folds, stage, src, splits, api, meth, val, g, pred, res, cand, xf, calls>>
@@ -288,6 +322,19 @@ SameTerm(s, t) == /\ Len(s.num) = Len(t.num)
 XfInvariant == pc = "xf" =>
    \A r \in 1..NR : SameTerm(NormTerm(meth, XfRow(val[r], xf[r])), NormTerm(meth, val[r]))
 
+\* pooling mode: a stack and a method, no protocol
+PoolInit == /\ Common
+            /\ fc = Case(1, "loo_rdm", "subj", "", 0, 0, FALSE, <<>>)
+            /\ folds = <<>> /\ src = SrcOb(1) /\ splits = FALSE /\ api = "pool" /\ meth \in Methods
+            /\ val \in StacksBy["subj"]
+\* the two kinds are the same function off the whitened measures, and kind "nc" is the Pool of the protocol
+PoolKindsAgree == (api = "pool" /\ pc = "start") =>
+   /\ meth \notin {"cosine_cov", "corr_cov"} => PoolStatK("nc", meth, val) = PoolStatK("fit", meth, val)
+   /\ meth \in CosType \cup CorrType \cup {"rho-a"} => PoolStatK("nc", meth, val) = PoolStat(meth, val)
+\* V3 is the whitening matrix of 3 conditions and AdjV3 its adjugate: V3 AdjV3 = 54 I
+V3Adjugate == \A i \in 1..3 : \A j \in 1..3 :
+   SumS([k \in 1..3 |-> V3[i][k] * AdjV3[k][j]]) = IF i = j THEN 54 ELSE 0
+
 (* ---------------- emission (S -> I) ----------------------------------------- *)
 SetSeq(S) == SortAsc(SetToSeq(S))
 FoldStat(f) == LET F == folds[f]  rows == ObVals(F.ceil)  trows == ObVals(F.test) IN
@@ -299,6 +346,10 @@ FoldStat(f) == LET F == folds[f]  rows == ObVals(F.ceil)  trows == ObVals(F.test
               ELSE [R |-> 0, present |-> <<>>, terms |-> <<>>],
     nt |-> Len(trows), tt |-> F.test.vec[1]]
 EmitNC ==
+  /\ (api = "pool" /\ pc = "start") =>
+        PrintT(ToJson([t |-> "pool", meth |-> meth, val |-> val,
+                       nc |-> IF meth \in PoolMethodsNc THEN PoolStatK("nc", meth, val) ELSE [R |-> 0, present |-> <<>>, terms |-> <<>>],
+                       fit |-> IF meth \in PoolMethodsFit THEN PoolStatK("fit", meth, val) ELSE [R |-> 0, present |-> <<>>, terms |-> <<>>]]))
   /\ (pc = "done" /\ Mode = "value") =>
         PrintT(ToJson([t |-> "stack", api |-> api, case |-> fc, by |-> fc.byR, meth |-> meth, val |-> val, prev |-> calls,
                        all |-> PoolStat(meth, val),
